@@ -272,6 +272,26 @@ type ledRunner struct {
 	nextHid int
 }
 
+// syncInput returns once every input event sent before has been processed (EV_SYN is ignored by processEvent)
+func (r *ledRunner) syncInput() bool {
+	return r.l.send(&input.InputEvent{
+		Source: input.Handler{Name: "", DeviceInfo: input.VerifDeviceInfo("Dummy", "", "")},
+		Event:  evdev.InputEvent{Type: evdev.EV_SYN},
+	})
+}
+
+// syncMidi returns once every MIDI-input message sent before has been processed (0xFE, active sensing, is ignored)
+func (r *ledRunner) syncMidi() bool {
+	select {
+	case r.v.midiIn <- midi.Event{0xFE}:
+		return true
+	case <-time.After(2 * time.Second):
+		return false
+	}
+}
+
+func (r *ledRunner) sync() bool { return r.syncInput() && r.syncMidi() }
+
 func mkKey(sub string, code, val int) *input.InputEvent {
 	return &input.InputEvent{
 		Source: input.Handler{Name: sub, DeviceInfo: input.VerifDeviceInfo("Dummy", "", "")},
@@ -306,7 +326,9 @@ func (r *ledRunner) line(toks []string) (string, bool) {
 		}
 		return strings.Join(parts, " "), true
 	case "led.state":
-		time.Sleep(15 * time.Millisecond)
+		if !r.sync() {
+			return "stuck", true
+		}
 		r.v.dev.eventProcessMutex.Lock()
 		st := fmt.Sprintf("%d %d %d %d", r.v.dev.octave, r.v.dev.semitone, r.v.dev.channel, r.v.dev.mapping)
 		r.v.dev.eventProcessMutex.Unlock()
@@ -319,7 +341,11 @@ func (r *ledRunner) line(toks []string) (string, bool) {
 		if !r.l.send(mkKey(subTok(toks[1]), atoi(toks[2]), atoi(toks[3]))) {
 			return "stuck", true
 		}
-		time.Sleep(3 * time.Millisecond)
+		// the event loop is sequential and the channel unbuffered: once a second (ignored) event has been taken, the
+		// first one has been processed completely and its MIDI output is in the output channel
+		if !r.syncInput() {
+			return "stuck", true
+		}
 		return r.v.drain(), true
 	case "midiin":
 		b, _ := hex.DecodeString(toks[1])
@@ -330,14 +356,32 @@ func (r *ledRunner) line(toks []string) (string, bool) {
 		}
 		return "", true
 	case "led.frame":
-		// two refresh periods after the last operation, then the last frame
-		time.Sleep(45 * time.Millisecond)
-		select {
-		case <-r.l.done:
-			if r.l.paniced {
-				return "PANIC", true
+		// every earlier operation has been processed (sync), then two further frames have arrived: the first of them
+		// may have been computed before the sync, the second one was computed after it
+		if !r.sync() {
+			select {
+			case <-r.l.done:
+				if r.l.paniced {
+					return "PANIC", true
+				}
+			default:
 			}
-		default:
+			return "stuck", true
+		}
+		_, n0 := r.l.srv.frame()
+		deadline := time.Now().Add(10 * time.Second)
+		for {
+			select {
+			case <-r.l.done:
+				if r.l.paniced {
+					return "PANIC", true
+				}
+			default:
+			}
+			if _, n := r.l.srv.frame(); n >= n0+2 || time.Now().After(deadline) {
+				break
+			}
+			time.Sleep(2 * time.Millisecond)
 		}
 		f, _ := r.l.srv.frame()
 		return f, true
